@@ -10,6 +10,7 @@ CONSTANTS
   DelimKinds = {"nl", "c1", "R3", "a12"}
   HostDelimKinds = {"c1", "a12", "a11"}
   WithNoop = TRUE
+  WithLim = TRUE
   Codecs = {"bytes"}
   PayAlpha = {1}
   MaxPay = 2
@@ -29,9 +30,9 @@ CONSTANTS
   ZeroReads = 0
   MaxErr = 0
   AfterDone = 1
-  AnyMax = 5
+  AnyMax = 4
   LongModes = {"ones", "whole", "split"}
-  HostAnyMax = 3
+  HostAnyMax = 2
   HostModes = {"ones", "whole"}
   WideHostModes = {"whole"}
 SPECIFICATION GSpec
